@@ -493,3 +493,9 @@ WITNESSES += [
             rule="C13.R7", construct="_centered_patch", note="seeded change R3-C13-B"),
     Witness("C13.T3", "menpo/image/patches.py", "_centered_patch", "half_pixel = np.array([patch_shape]) % 2 / 2", "half_pixel = np.array([[patch_shape[0] % 2, patch_shape[1] % 2]]) / 2", kind="T"),
 ]
+
+WITNESSES += [
+    Witness("C13.W12", "menpo/image/base.py", "Image.resize", "order=order, warp_landmarks=warp_landmarks", "warp_landmarks=warp_landmarks",
+            rule="C13.G4", construct="resize", note="generic: an option dropped from one forwarding call"),
+    Witness("C13.T5", "menpo/image/base.py", "Image.resize", "order=order, warp_landmarks=warp_landmarks", "warp_landmarks=warp_landmarks, order=int(order)", kind="T"),
+]
